@@ -198,6 +198,19 @@ def make_values(depth):
     return body
 
 
+ELEMS = {'li': '[1, 2]', 'lf': '[2.5]', 'ls': "['x']", 'le': '[]', 'll': '[[1]]', 'lls': "[['x']]",
+         'ti': '(1, 2)', 'ts': "('y', 2.0)", 'i': '3', 'z': '0', 'neg': '-1', 's': "'ab'"}
+
+
+def body_elements(ctx):
+    """containers with different element types, empty containers, zero/negative repetition counts"""
+    names = list(ELEMS)
+    op = ('+', '*')[ctx.choose(2, 'op')]
+    a = names[ctx.choose(len(names), 'left')]
+    b = names[ctx.choose(len(names), 'right')]
+    judge_expr(ctx, ELEMS, "%s %s %s" % (a, op, b))
+
+
 def bounds(tier):
     return {'operators': len(OPS), 'core_variables': len(CORE) * 2, 'extra_variables': len(EXTRA) if tier == 'thorough' else 0,
             'tree_depth': 2, 'value_depth': 2 if tier == 'quick' else 3}
@@ -211,6 +224,8 @@ def phases(tier):
     ph = [Phase('table', make_table(both), setup=_setup, chunk=100, describe='operator x ordered pair of core-typed variables (two values per type)'),
           Phase('trees', make_trees(CORE, ARITH, OPS), setup=_setup, chunk=100,
                 describe='all depth-2 trees: arithmetic inner operator, any outer operator, 5 core variables'),
+          Phase('container-elements', body_elements, setup=_setup, chunk=100,
+                describe='+ and * over containers with different element types, empty containers, zero/negative counts'),
           Phase('values', make_values(2 if tier == 'quick' else 3), setup=_setup, chunk=300, describe='all nested JSON-like values up to the depth bound')]
     if tier == 'thorough':
         ph += [Phase('table-extended', make_table(allv), setup=_setup, chunk=100, describe='table incl. bool, set, dict (information beyond the core types)'),
